@@ -261,7 +261,7 @@ def run(ck: Check) -> int:
                         "non-negative integers", "as C01 and C05"]
     ck.assumptions = ["a DEPENDING ON table does not sit inside a repeated group (index() there is finding D17, see C10)",
                       "counter values lie within the declared minimum..maximum", "ODO sheets are opened with an explicit lrecl"]
-    ck.prove(["Stingray.Props.C06"])
+    ck.prove(["Stingray.Props.C06", "Stingray.Tie.C01"])
     if ck.tier == "quick":
         explore(ck, 60, 3)
     else:
